@@ -13,6 +13,8 @@ PROP = dict(
         dict(module="MCClientURL", cfg="MCClientURL_mut_revprec.cfg", expect_violation="QueryHolds", timeout=300),
         # a Runtime serves a history of operations: a scheme remembered from the first request must be found
         dict(module="MCClientURL", cfg="MCClientURL_mut_memoscheme.cfg", expect_violation="SchemeHolds", timeout=300),
+        # the "set by the caller" snapshot must include what the auth writer set
+        dict(module="MCClientURL", cfg="MCClientURL_mut_earlysnapshot.cfg", expect_violation="QueryHolds", timeout=300),
     ],
     level_text="ClientURL transcribes the tail of request.buildHTTP (url.Parse, path.Join, ReplaceAll+PathEscape in map order, "
                "reinstateSlash, re-parse by http.NewRequest, static-query merge) and pickScheme over byte strings, next to C10 stated "
@@ -30,6 +32,8 @@ PROP = dict(
          "pattern, value map, caller query, operation schemes), each built under several SetPathParam orders x repetitions; every request "
          "of the history is checked on its own. Histories: all sequences of 2-3 operation scheme lists over a 7-list pool x 3 runtime lists; "
          "template/value/query sequences under every base spelling; every 4th random case continues with 1-4 further random operations. "
+         "Auth writers that set query parameters (client.APIKeyAuth in the query as operation AuthInfo and as Runtime.DefaultAuthentication) x "
+         "static query parameters of colliding and other names in base path / pattern x the params writer's value (3 840 two-step cases). "
          "Single-operation part: exhaustive part: 6 base spellings x all patterns of <=2 segments over an 8-segment pool (literals needing "
          "escapes, placeholders, mixed segments) x all values of <=1 (thorough <=2) atoms over a 12-byte class alphabet plus "
          "placeholder-like/dot/escape-like specials; all 3-level query fixings of two keys; all scheme lists <=3 over {http,https,ws} "
